@@ -13,7 +13,13 @@ from dask.utils import iter_chunks, parse_bytes
 from pandas.api.types import is_datetime64_any_dtype, is_numeric_dtype
 from tlz import unique
 
-from dask_expr._expr import Expr, Filter, Projection, plain_column_projection
+from dask_expr._expr import (
+    Expr,
+    Filter,
+    Projection,
+    _depends_on,
+    plain_column_projection,
+)
 from dask_expr._reductions import TotalMemoryUsageFrame
 from dask_expr._util import LRU
 
@@ -134,8 +140,13 @@ class Repartition(Expr):
             raise NotImplementedError()
 
     def _simplify_up(self, parent, dependents):
-        if isinstance(parent, Filter) and self._filter_passthrough_available(
-            parent, dependents
+        if (
+            isinstance(parent, Filter)
+            and self._filter_passthrough_available(parent, dependents)
+            # a mask that is not computed from this frame is laid out like the
+            # repartitioned rows; below the repartition it would have to be
+            # aligned again (and the plan would grow on every optimize)
+            and _depends_on(parent.predicate, self._name, {})
         ):
             return self._filter_simplification(parent)
         if isinstance(parent, Projection):
